@@ -35,6 +35,7 @@
 #include "newlines/remove.h"
 #include "newlines/sparens.h"
 #include "newlines/squeeze.h"
+#include "options_for_QT.h"
 #include "output.h"
 #include "parens.h"
 #include "parent_for_pp.h"
@@ -2603,6 +2604,12 @@ void uncrustify_end()
    cpd.preproc_ncnl_count                     = 0;
    cpd.ifdef_over_whole_file                  = 0;
    cpd.warned_unable_string_replace_tab_chars = false;
+
+   // a SIGNAL/SLOT block that is still open at the end of a file must not override the options of the next one
+   if (QT_SIGNAL_SLOT_found)
+   {
+      restore_options_for_QT();
+   }
 }
 
 
